@@ -695,7 +695,7 @@ impl Sim {
                 if self.slots[a].tainted {
                     return Ok(());
                 }
-                let enc = *enc % medium::NENC;
+                let enc = self.enc_for(a, *enc);
                 let w = self.slots[a].world.as_ref().unwrap();
                 let stream = match sut(|| medium::serialize(w, enc)) {
                     Ok(Ok(s)) => s,
@@ -792,7 +792,7 @@ impl Sim {
                 if self.slots[si].tainted {
                     return Ok(());
                 }
-                let enc = *enc % medium::NENC;
+                let enc = self.enc_for(si, *enc);
                 let w = self.slots[si].world.as_ref().unwrap();
                 let stream = match sut(|| medium::serialize(w, enc)) {
                     Ok(Ok(s)) => s,
@@ -981,13 +981,26 @@ impl Sim {
                 }
             }
             Op::Corrupt { src, dst, enc, faults, in_place } => {
-                return self.corrupt(self.s(*src), self.s(*dst), *enc % medium::NENC, faults, *in_place);
+                let enc = self.enc_for(self.s(*src), *enc);
+                return self.corrupt(self.s(*src), self.s(*dst), enc, faults, *in_place);
             }
             Op::FaultAt { kind, k, as_error, inner } => {
                 return self.fault_at(kind, *k, *as_error, inner);
             }
         }
         Ok(())
+    }
+
+    /// The text encodings of a huge world (and the `Value` tree of one of them) would not fit the
+    /// simulator's arena: huge worlds travel in the compact token encoding.
+    fn enc_for(&self, si: usize, enc: u8) -> u8 {
+        let enc = enc % medium::NENC;
+        let big = self.slots[si].model.ents.len() > 20_000 || self.slots[si].world.as_ref().map_or(false, |w| w.len() > 20_000);
+        if (enc == 2 || enc == 4) && big {
+            1
+        } else {
+            enc
+        }
     }
 
     fn free_len(&self, si: usize) -> Option<usize> {
